@@ -118,11 +118,35 @@ func Run(ctx *common.Ctx) {
 			}
 			return
 		}
+		// scripted openings (25% of the histories): sequences of steps that a random walk rarely produces,
+		// followed by random steps (added after seeded changes C13-5 and C13-6 were missed)
+		var forced [][5]int // p, q, vn, fn, x
+		if ctx.Rng.Chance(25) {
+			u := (pe + 1 + ctx.Rng.Intn(2)) % 3
+			step := func(p, q, x int) [5]int { return [5]int{p, q, fv, ff, x} }
+			switch ctx.Rng.Intn(4) {
+			case 0: // a package used twice, unused once, and only then an export in the used package
+				forced = [][5]int{step(u, pe, 20), step(u, pe, 20), step(u, pe, 30), step(pe, 0, 5), step(0, 0, 65), step(0, 0, 85), step(pe, 0, 40), step(pe, 0, 48)}
+			case 1: // own definitions on both sides, then unexport (of names never exported) in the used package
+				forced = [][5]int{step(pe, 0, 5), step(0, 0, 65), step(0, 0, 85), step(u, 0, 5), step(0, 0, 65), step(0, 0, 85), step(u, pe, 20), step(pe, 0, 53), step(pe, 0, 58)}
+			case 2: // own definitions on both sides, export, unexport, export again
+				forced = [][5]int{step(u, 0, 5), step(0, 0, 65), step(0, 0, 85), step(pe, 0, 5), step(0, 0, 65), step(0, 0, 85), step(u, pe, 20), step(pe, 0, 40), step(pe, 0, 48), step(pe, 0, 53), step(pe, 0, 58), step(pe, 0, 40)}
+			default: // two users of one exporter, one of them leaves and comes back
+				w := 3 - pe - u
+				forced = [][5]int{step(pe, 0, 5), step(0, 0, 65), step(0, 0, 85), step(pe, 0, 40), step(pe, 0, 48), step(u, pe, 20), step(w, pe, 20), step(u, pe, 30), step(u, pe, 20), step(pe, 0, 53)}
+			}
+			ctx.Hist("scripted-opening")
+			if L < len(forced)+2 {
+				L = len(forced) + 2
+			}
+		}
 		for i := 0; i < L; i++ {
 			var lisp, g string
 			p, q, vn, fn, x := draw()
 			val++
-			if sensible {
+			if i < len(forced) {
+				p, q, vn, fn, x = forced[i][0], forced[i][1], forced[i][2], forced[i][3], forced[i][4]
+			} else if sensible {
 				// re-draw a few times until the step looks guarded
 				for try := 0; try < 6; try++ {
 					ok := true
